@@ -335,6 +335,11 @@ pub fn pod_collect_to_vec<A: NoUninit, B: NoUninit + AnyBitPattern>(
   src: &[A],
 ) -> Vec<B> {
   let src_size = core::mem::size_of_val(src);
+  if size_of::<B>() == 0 {
+    // A zero-sized `B` cannot hold any bytes (and would make the division
+    // below panic): there is nothing to collect into.
+    return Vec::new();
+  }
   // Note(Lokathor): dst_count is rounded up so that the dest will always be at
   // least as many bytes as the src.
   let dst_count = src_size / size_of::<B>()
